@@ -1,6 +1,7 @@
 # C19 - app hashing and one-time signing bind to the application's actual code
 import io
 import os
+import json
 import re
 import sys
 import random
@@ -139,6 +140,33 @@ def run_case(acc, cseed, tmpdir, state):
         if code != 0 or not m or m.group(1) != want.hex():
             acc.violation("signapp-hash-differs", {"code": code, "out": out[-200:],
                                                    "want": want.hex()}, case)
+    # ---- the hash embedded in authorization messages: each image in turn into the SAME
+    # output file (so that from the second on the file already exists and names another
+    # image), and printed
+    authp = os.path.join(tmpdir, "auth-seq.json")
+    if os.path.exists(authp):
+        os.unlink(authp)
+    for (p, areas, want) in images + images[:1]:
+        it = rng.choice([0, 1, 255, 256, 65535, rng.randrange(65536)])
+        text = "RSK_powHSM_signer_%s_iteration_%d" % (want.hex(), it)
+        existed = os.path.exists(authp)
+        code, out = run_main(signapp.main, ["signapp.py", "message", "-a", p, "-i", str(it),
+                                            "-o", authp])
+        acc.count("embedded_hashes_compared")
+        try:
+            doc = json.load(open(authp))
+        except Exception:
+            doc = None
+        if code != 0 or not doc or doc.get("signer") != {"hash": want.hex(), "iteration": it}:
+            acc.violation("authorization-message-file-names-other-hash:%s" % (
+                "output-file-existed" if existed else "fresh-output-file"),
+                {"code": code, "file": str(doc)[:200], "want_hash": want.hex(), "want_it": it},
+                case)
+        code, out = run_main(signapp.main, ["signapp.py", "message", "-a", p, "-i", str(it)])
+        acc.count("embedded_hashes_compared")
+        if code != 0 or text not in out:
+            acc.violation("authorization-message-printed-names-other-hash",
+                          {"code": code, "out": out[-200:], "want": text}, case)
     # ---- one-time signing
     pubp = os.path.join(tmpdir, "pub.txt")
     for f in [pubp] + [im[0] + ".sig" for im in images]:
